@@ -33,7 +33,7 @@
 use self::errors::*;
 use crate::DmntkError;
 use std::convert::TryFrom;
-use uriparse::{RelativeReference, URI};
+use uriparse::URIReference;
 
 /// Optional reference to an element.
 pub type OptHRef = Option<HRef>;
@@ -60,14 +60,14 @@ impl TryFrom<&str> for HRef {
   type Error = DmntkError;
   /// Tries to convert string into [HRef].
   fn try_from(value: &str) -> Result<Self, Self::Error> {
-    if let Ok(relative_reference) = RelativeReference::try_from(value) {
-      let s = relative_reference.to_string();
-      return Ok(Self(if s.starts_with('#') { s.strip_prefix('#').unwrap().to_string() } else { s }));
+    match URIReference::try_from(value) {
+      Ok(reference) if reference.is_relative_reference() => {
+        let s = reference.to_string();
+        Ok(Self(if s.starts_with('#') { s.strip_prefix('#').unwrap().to_string() } else { s }))
+      }
+      Ok(reference) => Ok(Self(reference.to_string())),
+      Err(_) => Err(err_invalid_reference(value)),
     }
-    if let Ok(uri) = URI::try_from(value) {
-      return Ok(Self(uri.to_string()));
-    }
-    Err(err_invalid_reference(value))
   }
 }
 
